@@ -263,7 +263,7 @@ def tlc_trace(module, trace_path, shards=12, xmx="3g", timeout=1800, cfg=None, m
             if mm:
                 m = mm
         for t in tlc_tuples(out):
-            if len(t) > 1 and isinstance(t[1], int) and t[0] in ("MISMATCH", "INFO", "KNOWN", "DRIFT", "DONTCARE"):
+            if len(t) > 1 and isinstance(t[1], int) and t[0] in ("MISMATCH", "INFO", "KNOWN", "DRIFT", "DONTCARE", "FOLLOWED"):
                 tuples.append((offsets[i] + t[1], t))
             else:
                 tuples.append((None, t))
@@ -330,6 +330,7 @@ class Result:
         self.assumptions = []
         self.exhaustive = False
         self.drift = []
+        self.incomplete = False
 
     def add_mc(self, res):
         self.mc_runs.append({k: res[k] for k in ("cfg", "distinct", "generated", "depth", "wall_s")})
@@ -337,6 +338,8 @@ class Result:
         self.transitions += res["generated"]
 
     def add_trace(self, tr):
+        if not tr.get("consumed", True):
+            self.incomplete = True
         self.states += tr["states"]
         self.transitions += tr["transitions"]
         self.traces += tr["records"]
@@ -354,6 +357,9 @@ class Result:
         self.known_hits.append((finding.get("id", "?"), what))
 
     def finish(self):
+        if self.incomplete and not self.violations:
+            # part of a trace was not validated (TLC error in a shard): never report that as "held"
+            raise ToolError("trace validation incomplete: a TLC shard stopped with an error and nothing it had reported is a violation")
         wall = time.time() - self.t0
         seen = set()
         for fid, what in self.known_hits:
